@@ -1,7 +1,10 @@
 package contactql
 
 import (
+	"strconv"
 	"strings"
+
+	"github.com/nyaruka/goflow/envs"
 
 	"github.com/nyaruka/goflow/zzverif"
 )
@@ -106,4 +109,173 @@ func VerifC14_ConditionLiteral() {
 		zzverif.Cover("trailing-backslash")
 	}
 	zzverif.Assert(verifLexSTRING(rest) == len(lit), "STRING token starting at the literal does not end where the literal ends")
+}
+
+// verifDumpQuery renders the structure of a query: boolean structure,
+// property types and keys, operators and values (values quoted by Go, so that
+// nothing in a value can imitate structure).
+func verifDumpQuery(n QueryNode) string {
+	switch t := n.(type) {
+	case *Condition:
+		return "(" + string(t.propType) + " " + t.propKey + " " + string(t.operator) + " " + strconvQuote(t.value) + ")"
+	case *BoolCombination:
+		parts := make([]string, len(t.children))
+		for i, c := range t.children {
+			parts[i] = verifDumpQuery(c)
+		}
+		return "[" + string(t.op) + " " + strings.Join(parts, " ") + "]"
+	}
+	return "?"
+}
+
+func strconvQuote(s string) string {
+	const hex = "0123456789abcdef"
+	out := []byte{'<'}
+	for i := 0; i < len(s); i++ {
+		out = append(out, hex[s[i]>>4], hex[s[i]&15])
+	}
+	return string(append(out, '>'))
+}
+
+func verifEnv() envs.Environment {
+	if zzverif.Choice("redaction", 2) == 1 {
+		return envs.NewBuilder().WithRedactionPolicy(envs.RedactionPolicyURNs).Build()
+	}
+	return envs.NewBuilder().Build()
+}
+
+// VerifC14_Reparse: a valid query built programmatically — a condition with
+// an arbitrary ASCII value (≤ 2 bytes quick / 3 thorough: quotes,
+// backslashes, operators, parentheses, keyword letters) first, in the middle
+// or last among two fixed conditions, under AND, OR or a nested combination —
+// formats to text that ParseQuery (parser model + the real visitor,
+// validation and simplification) reads back to a structurally identical
+// query, under both redaction policies.
+// cover: quoted, bare, has-quote, has-backslash, trailing-backslash, nested
+func VerifC14_Reparse() {
+	n := 2
+	if zzverif.Thorough() {
+		n = 3
+	}
+	v := verifValue("v", n, true)
+	zzverif.Assume(len(v) > 0)
+	env := verifEnv()
+	c := NewCondition(PropertyTypeAttribute, AttributeName, OpEqual, v)
+	if zzverif.Choice("prop", 2) == 1 {
+		c = NewCondition(PropertyTypeField, "nick", OpNotEqual, v)
+	}
+	other1 := NewCondition(PropertyTypeAttribute, AttributeLanguage, OpEqual, "eng")
+	other2 := NewCondition(PropertyTypeField, "nick", OpEqual, "a\"b")
+	pos := zzverif.Choice("pos", 3)
+	var q QueryNode
+	switch zzverif.Choice("shape", 3) {
+	case 0:
+		q = NewBoolCombination(BoolOperatorOr, [][]QueryNode{{c, other1, other2}, {other1, c, other2}, {other1, other2, c}}[pos]...)
+	case 1:
+		q = NewBoolCombination(BoolOperatorAnd, [][]QueryNode{{c, other1, other2}, {other1, c, other2}, {other1, other2, c}}[pos]...)
+	default:
+		zzverif.Cover("nested")
+		inner := NewBoolCombination(BoolOperatorOr, [][]QueryNode{{c, other1}, {other1, c}, {other1, c}}[pos]...)
+		q = NewBoolCombination(BoolOperatorAnd, [][]QueryNode{{inner, other2}, {inner, other2}, {other2, inner}}[pos]...)
+	}
+	res := verifResolver()
+	zzverif.Assert(q.validate(env, res) == nil, "setup: query not valid")
+	switch {
+	case verifIsBareNumber(v):
+		zzverif.Cover("bare")
+	case strings.IndexByte(v, '"') >= 0:
+		zzverif.Cover("has-quote")
+	case strings.IndexByte(v, '\\') >= 0:
+		zzverif.Cover("has-backslash")
+	default:
+		zzverif.Cover("quoted")
+	}
+	text := Stringify(q)
+	lastInText := strings.HasSuffix(text, c.String()) || strings.HasSuffix(text, c.String()+")")
+	if zzverif.Known("C14-lexer-trailing-backslash", strings.HasSuffix(v, "\\") && !lastInText) {
+		zzverif.Cover("trailing-backslash")
+	}
+	back, err := ParseQuery(env, text, res)
+	zzverif.Assert(err == nil, "the text of a valid query does not parse")
+	zzverif.Assert(verifDumpQuery(back.Root()) == verifDumpQuery(q.Simplify()), "the text of a query parses back to a different query")
+}
+
+// VerifC14_Injection: a value substituted into a query template with the
+// engine's escaping (flows.ContactQueryEscaping = strconv.Quote) becomes
+// exactly one literal: `name = <escaped v> OR language = "eng"` parses to the
+// disjunction of name = v and language = eng for every ASCII value v of
+// ≤ 3 / 4 bytes, under both redaction policies.
+// cover: has-quote, has-backslash, keyword-or-operator, trailing-backslash
+func VerifC14_Injection() {
+	n := 3
+	if zzverif.Thorough() {
+		n = 4
+	}
+	v := verifValue("v", n, true)
+	zzverif.Assume(len(v) > 0)
+	env := verifEnv()
+	switch {
+	case strings.IndexByte(v, '"') >= 0:
+		zzverif.Cover("has-quote")
+	case strings.IndexByte(v, '\\') >= 0:
+		zzverif.Cover("has-backslash")
+	case strings.ContainsAny(v, "=()~<>") || strings.EqualFold(v, "or"):
+		zzverif.Cover("keyword-or-operator")
+	}
+	if zzverif.Known("C14-lexer-trailing-backslash", strings.HasSuffix(v, "\\")) {
+		zzverif.Cover("trailing-backslash")
+	}
+	text := "name = " + strconv.Quote(v) + " OR language = \"eng\""
+	q, err := ParseQuery(env, text, verifResolver())
+	zzverif.Assert(err == nil, "a template with an escaped value does not parse")
+	want := NewBoolCombination(BoolOperatorOr, NewCondition(PropertyTypeAttribute, AttributeName, OpEqual, v), NewCondition(PropertyTypeAttribute, AttributeLanguage, OpEqual, "eng"))
+	zzverif.Assert(verifDumpQuery(q.Root()) == verifDumpQuery(want), "an escaped value added, dropped or altered conditions")
+}
+
+var verifQueryTokens = []string{"name", "nick", "age", "=", "!=", "~", ">", "has", "and", "OR", "(", ")", `"x y"`, `"a\"b"`, "bob", "12", "1.50", "fields.nick", "language"}
+
+// VerifC14_TextRoundTrip: for every query text of ≤ 4 tokens (5 thorough)
+// over a vocabulary of properties, comparators and aliases, AND/OR,
+// parentheses, quoted and bare literals that the parser accepts: formatting
+// the parsed query and parsing that text again gives a structurally
+// identical query, and formatting is then a fixed point.
+// cover: accepted, rejected, implicit-condition, implicit-and, grouping
+func VerifC14_TextRoundTrip() {
+	n := 4
+	if zzverif.Thorough() {
+		n = 5
+	}
+	env := envs.NewBuilder().Build()
+	k := 1 + zzverif.Choice("tokens", n)
+	text := ""
+	for i := 0; i < k; i++ {
+		if i > 0 {
+			text += " "
+		}
+		text += verifQueryTokens[zzverif.Choice("token", len(verifQueryTokens))]
+	}
+	// (texts made of digits, spaces, dots, dashes and parentheses only are first tried as a phone number through the phonenumbers library, which is not encoded)
+	zzverif.Assume(strings.ContainsAny(text, "abcdefghijklmnopqrstuvwxyzOR=!~>\""))
+	res := verifResolver()
+	q1, err := ParseQuery(env, text, res)
+	if err != nil {
+		zzverif.Cover("rejected")
+		return
+	}
+	zzverif.Cover("accepted")
+	if strings.Contains(text, "(") {
+		zzverif.Cover("grouping")
+	}
+	printed := q1.String()
+	q2, err := ParseQuery(env, printed, res)
+	zzverif.Assert(err == nil, "the formatted text of an accepted query does not parse")
+	zzverif.Assert(verifDumpQuery(q2.Root()) == verifDumpQuery(q1.Root()), "formatting and re-parsing an accepted query gives a different query")
+	zzverif.Assert(q2.String() == printed, "formatting a re-parsed query gives a different text")
+	if bc, ok := q1.Root().(*BoolCombination); ok && !strings.Contains(strings.ToLower(text), "and") && !strings.Contains(text, "OR") {
+		_ = bc
+		zzverif.Cover("implicit-and")
+	}
+	if c, ok := q1.Root().(*Condition); ok && c.propKey == AttributeName && !strings.Contains(text, "name") {
+		zzverif.Cover("implicit-condition")
+	}
 }
